@@ -173,10 +173,137 @@ def delivery_conditions(eng, w, entries, selected):
     return c
 
 
+def tree_names(pattern):
+    """member names forming a consistent tree for the kinds of `pattern` (files may live in earlier directories)"""
+    out, lastdir = [], None
+    for i, k in enumerate(pattern):
+        if k == "d":
+            out.append("dir%d" % i)
+            lastdir = out[-1]
+        else:
+            out.append(("%s/m%d.bin" % (lastdir, i)) if lastdir else "m%d.bin" % i)
+    return out
+
+
+def extract_to_path(pattern, folders, opts):
+    """extractall(path) through the real _extract incl. its post-pass (utime / chmod) on the filesystem model"""
+    from vf.harness import fakefs as F
+    from vf.pysym.models import Native
+
+    r = ObResult(bounds="layout %s; extractall(<directory>) on the filesystem model; sizes/CRCs/timestamps symbolic; one decoder "
+                        "call per member" % RC.shape_name(pattern, folders, opts))
+    eng = RC.mk_engine(unroll=1)
+    sym = RC.symbols(eng, pattern)
+
+    class TS(Native):
+        def __init__(self, v):
+            self.v = v
+
+        def totimestamp(self, e):
+            return ("ts", self.v)
+
+    def harness(e):
+        fs = F.FS()
+        for loc in [("/", "base"), ("/", "base", "jail")]:
+            fs.nodes[loc] = ("dir",)
+        F.install(e, fs, "/base/jail")
+        entries, layout = RC.build(e, pattern, folders, opts, sym, names=tree_names(pattern))
+        try:
+            z, fp, w = X.setup_read(e, entries, layout, consume="all-at-once")
+        except ModelRaise as ex:
+            return dict(exc="open:" + ex.name)
+        # FILETIME -> float conversion is the subject of C02; here only *whether* and *with which stored value* it is applied
+        e.class_models[("py7zr.helpers", "ArchiveTimestamp")] = lambda e_, x: TS(e_.models._int(e_, x))
+        try:
+            e.method(z, "extractall", F.FakePath(fs, "/base/jail", "/base/jail"))
+        except ModelRaise as ex:
+            return dict(exc=ex.name + str(ex.eargs)[:80])
+        finally:
+            e.class_models[("py7zr.helpers", "ArchiveTimestamp")] = lambda e_, x: e_.models._int(e_, x)
+        return dict(fs=fs, entries=entries, world=w)
+
+    def post(o):
+        if "exc" in o:
+            return False
+        fs, entries, w = o["fs"], o["entries"], o["world"]
+        c = []
+        times, modes = fs.__dict__.get("times", {}), fs.__dict__.get("modes", {})
+        for i, en in enumerate(entries):
+            loc = ("/", "base", "jail") + tuple(en["name"].split("/"))
+            if en["kind"] == "d":
+                c.append(fs.kind(loc) == "dir")
+            elif en["kind"] == "l":
+                continue
+            else:
+                node = fs.nodes.get(loc)
+                c.append(node is not None and node[0] == "file")
+                if node is None or node[0] != "file":
+                    continue
+                if en["kind"] == "f":
+                    fi_, off, size = w.member_range[i]
+                    chunks = node[1].chunks if node[1] is not None else []
+                    total = 0
+                    for ch in chunks:
+                        c.append(ch.folder == fi_)
+                        total = eng.binop(ast.Add(), total, ch.n)
+                    c.append(eq(eng, total, size))
+            if en["kind"] in "fed" and not (en["kind"] == "d" and False):
+                # modification time is applied exactly when the archive defines one, with the stored value
+                if en["mtime"] is not None:
+                    t = times.get(loc)
+                    c.append(t is not None and isinstance(t[0], tuple) and t[0][0] == "ts")
+                    if t is not None and isinstance(t[0], tuple):
+                        c.append(eq(eng, t[0][1], en["mtime"]))
+                else:
+                    c.append(loc not in times)
+                if en["attributes"] is not None and (en["attributes"] & 0x8000):
+                    c.append(modes.get(loc) is not None and eq(eng, modes.get(loc), (en["attributes"] >> 16) & 0o7777) is not False)
+        # nothing outside the destination
+        c.append(all(loc[:3] == ("/", "base", "jail") for (op, loc) in fs.effects))
+        return c
+
+    decide(eng, harness, post, RC.inputs_of(sym, pattern, folders), r, describe=lambda o: o.get("exc") or "%d effects" % len(o["fs"].effects))
+    _cex(r, "extract_to_path", lambda w_: dict(module="vf.props.c06", func="replay_to_path", kwargs=dict(
+        pattern=pattern, folders=folders, opts=opts, witness={k: int(v) for k, v in w_.items() if isinstance(v, int)})),
+         signature=lambda w_: dict(_sig("extract_to_path", pattern, folders, opts)))
+    return r
+
+
+def replay_to_path(pattern, folders, opts, witness):
+    import os
+    import shutil
+    import tempfile
+
+    import py7zr
+
+    img, entries, datas = concrete_case(pattern, folders, opts, witness, names=tree_names(pattern))
+    d = tempfile.mkdtemp(prefix="vf_c06p_")
+    try:
+        try:
+            py7zr.SevenZipFile(io.BytesIO(img)).extractall(path=d)
+        except Exception as e:  # noqa
+            return True, "extraction of a valid archive to a directory failed: %r" % (e,)
+        di = 0
+        for en in entries:
+            p = os.path.join(d, en["name"])
+            if en["kind"] == "d":
+                if not os.path.isdir(p):
+                    return True, "directory %s missing" % en["name"]
+            elif en["kind"] in "fe":
+                want = datas[di] if en["kind"] == "f" else b""
+                if not os.path.isfile(p) or open(p, "rb").read() != want:
+                    return True, "member %s missing or different" % en["name"]
+            if en["kind"] in "fl":
+                di += 1
+        return False, "tree as the format assigns"
+    finally:
+        shutil.rmtree(d, ignore_errors=True)
+
+
 # ---------------------------------------------------------------------------------------- replays
-def concrete_case(pattern, folders, opts, witness):
+def concrete_case(pattern, folders, opts, witness, names=None):
     """concrete archive (Copy codec) for a witness: returns (image bytes, expected {name: bytes or None})"""
-    names = RC.NAMES
+    names = names or RC.NAMES
     entries, datas = [], []
     for i, k in enumerate(pattern):
         size = int(witness.get("size%d" % i, 0)) % 50 if k in "fl" else 0
@@ -290,6 +417,9 @@ def units(tier):
     for (p, f, o) in shapes:
         us.append(Unit("X.extractall[%s]" % RC.shape_name(p, f, o), M, "extract_all",
                        dict(pattern=p, folders=f, opts=o, unroll=2 if tier == "quick" else 3), 1800))
+    for (p, f, o) in [("fdf", [2], {}), ("fff", [2, 1], {"times": "partial"}), ("ffd", [2], {"attrs": "partial"}), ("fef", [1, 1], {"times": "none"})] + (
+            [("fdf", [1, 1], {"attrs": "none"}), ("ff", [2], {"times": "partial", "attrs": "partial"})] if tier == "thorough" else []):
+        us.append(Unit("D.extract_to_path[%s]" % RC.shape_name(p, f, o), M, "extract_to_path", dict(pattern=p, folders=f, opts=o), 1800))
     # the thread-parallel branch (multi-folder archive opened by path), workers run one after the other
     for (p, f, o) in [s_ for s_ in shapes if len(s_[1]) > 1][: (3 if tier == "quick" else 99)] + [("ff", [1, 1], {"packpos": True})]:
         us.append(Unit("P.extractall_by_path[%s]" % RC.shape_name(p, f, o), M, "extract_all",
